@@ -111,6 +111,37 @@ def build(tspec, mark='~'):
     return b
 
 
+class Hang(BaseException):
+    """raised by the watchdog (SIGALRM) inside code that does not come back"""
+
+
+def _on_alarm(*a):
+    raise Hang()
+
+
+class watchdog(object):
+    """with watchdog(seconds): ...   -- main thread of a process only; no-op elsewhere"""
+
+    def __init__(self, seconds):
+        self.seconds = seconds
+        self.armed = False
+
+    def __enter__(self):
+        import signal
+        if threading.current_thread() is threading.main_thread():
+            self.old = signal.signal(signal.SIGALRM, _on_alarm)
+            signal.alarm(self.seconds)
+            self.armed = True
+        return self
+
+    def __exit__(self, *a):
+        import signal
+        if self.armed:
+            signal.alarm(0)
+            signal.signal(signal.SIGALRM, self.old)
+        return False
+
+
 def canon_val(v, depth=0):
     """JSON-able canonical form of event data / context values (no identities)"""
     from genshi.core import Markup, Attrs, QName
@@ -150,8 +181,13 @@ def drain(stream, limit=None):
     out = []
     it = iter(stream)
     while limit is None or len(out) < limit:
+        if len(out) > 20000:
+            return out, 'err:EndlessOutput'
         try:
-            ev = next(it)
+            with watchdog(10):
+                ev = next(it)
+        except Hang:
+            return out, 'err:Hang'
         except StopIteration:
             return out, 'done'
         except RecursionError:
@@ -484,8 +520,11 @@ def oracle_interleave(case, res=None, with_foot=True):
         if with_foot:
             cb = [snap_ctx(c) for c in ctxs]
         try:
-            ev = next(its[i])
+            with watchdog(10):
+                ev = next(its[i])
             got[i].append(canon_event(ev))
+        except Hang:
+            term[i] = 'err:Hang'
         except StopIteration:
             term[i] = 'done'
         except RecursionError:
@@ -640,12 +679,407 @@ def oracle_threads(case, res=None):
 def oracle_case(case, res=None):
     kind = case['kind']
     if kind == 'seq':
-        return oracle_seq(case, res)[0]
+        fails, foot = oracle_seq(case, res)
+        if case.get('footprint'):
+            # regression form of a repaired defect that is a write to shared state without an output-level
+            # symptom at next() granularity: the template's own lists must be left as they are
+            r2 = Result()
+            check_footprints(case, foot, r2, 'seq')
+            for d in r2.disagreements:
+                fails.append(fail(case, 'operation leaves the lists of the template (shared by all renders and threads) untouched',
+                                  d['model'], d['real']))
+        return fails
     if kind == 'interleave':
         return oracle_interleave(case, res, with_foot=False)[0]
     if kind == 'threads':
         return oracle_threads(case, res)
     raise ValueError(kind)
+
+
+# --------------------------------------------------------------------------
+# correspondence with the Lean heap machine (gdrv verb `C10 run`)
+
+FUEL = 20000
+
+
+def wire_val(v, key=None):
+    if v is None:
+        return proto.N
+    if isinstance(v, bool):
+        return proto.B(v)
+    if isinstance(v, int):
+        return v
+    if isinstance(v, str):
+        return str(v)
+    if isinstance(v, list) and all(x is None or isinstance(x, (bool, int, str)) for x in v):
+        return [Atom('L')] + [wire_val(x) for x in v]
+    if callable(v) and key is not None:
+        return [Atom('F'), key]
+    return Atom('Z')
+
+
+def wire_expr(node):
+    """python ast of an expression -> wire, or None outside the modelled fragment"""
+    import ast
+    if isinstance(node, ast.Expression):
+        node = node.body
+    if isinstance(node, ast.Name):
+        return [Atom('v'), node.id]
+    if isinstance(node, ast.Constant) and (node.value is None or isinstance(node.value, (bool, int, str))):
+        return [Atom('l'), wire_val(node.value)]
+    if isinstance(node, ast.Compare) and len(node.ops) == 1 and isinstance(node.ops[0], ast.Eq):
+        a, b = wire_expr(node.left), wire_expr(node.comparators[0])
+        if a is None or b is None:
+            return None
+        return [Atom('eq'), a, b]
+    if isinstance(node, ast.UnaryOp) and isinstance(node.op, ast.Not):
+        a = wire_expr(node.operand)
+        return None if a is None else [Atom('not'), a]
+    return None
+
+
+def _assign_name(fn):
+    d = getattr(fn, '__defaults__', None)
+    if d and isinstance(d[0], str):
+        return d[0]
+    return None
+
+
+def wire_dir(d, num):
+    import ast
+    name = type(d).__name__
+    mod = type(d).__module__
+    other = [num, Atom('other')]
+    if isinstance(d, tuple):
+        return other
+    i18n = mod.endswith('i18n')
+
+    def optexpr(e):
+        if e is None:
+            return proto.N
+        return wire_expr(e.ast)
+    if not i18n:
+        if name == 'IfDirective':
+            e = d.expr and wire_expr(d.expr.ast)
+            return [num, Atom('if'), e] if e else other
+        if name == 'ForDirective':
+            var = _assign_name(d.assign)
+            body = d.expr.ast.body
+            if var and isinstance(body, ast.Call) and getattr(body.func, 'id', None) == 'iter' and len(body.args) == 1:
+                e = wire_expr(body.args[0])
+                if e:
+                    return [num, Atom('for'), var, e]
+            return other
+        if name == 'WithDirective':
+            bs = []
+            for targets, e in d.vars:
+                if len(targets) != 1 or _assign_name(targets[0]) is None:
+                    return other
+                w = wire_expr(e.ast)
+                if w is None:
+                    return other
+                bs.append([_assign_name(targets[0]), w])
+            return [num, Atom('with'), bs]
+        if name in ('ChooseDirective', 'WhenDirective', 'StripDirective'):
+            e = optexpr(d.expr)
+            if e is None:
+                return other
+            return [num, Atom({'ChooseDirective': 'choose', 'WhenDirective': 'when', 'StripDirective': 'unwrap'}[name]), e]
+        if name == 'OtherwiseDirective':
+            return [num, Atom('otherwise')]
+        return other
+    if name == 'DomainDirective':
+        return [num, Atom('domain'), d.domain]
+    if name == 'CommentDirective':
+        return [num, Atom('comment'), d.comment]
+    if name == 'ContextDirective':
+        return [num, Atom('ctxt'), d.context]
+    if name == 'MsgDirective':
+        return [num, Atom('msg')]
+    if name == 'ChooseDirective':
+        return [num, Atom('ichoose')]
+    if name in ('SingularDirective', 'PluralDirective'):
+        return [num, Atom('branch')]
+    return other
+
+
+class Image(object):
+    """the prepared stream of a real template as the model's heap: cell 0 = `_stream`; directive lists and
+    sub-stream lists get addresses in depth-first order; directive objects are numbered by identity"""
+
+    def __init__(self, dirnum=None):
+        self.cells = []
+        self.addr = {}            # id(python list) -> address
+        self.dirnum = dirnum if dirnum is not None else {}
+        self.keep = []
+
+    def num(self, d):
+        k = id(d)
+        if k not in self.dirnum:
+            self.dirnum[k] = len(self.dirnum)
+            self.keep.append(d)
+        return self.dirnum[k]
+
+    def add_evs(self, events):
+        from harness import evwire
+        from genshi.core import START
+        from genshi.template.base import EXPR, SUB, INCLUDE, EXEC
+        a = len(self.cells)
+        self.cells.append(None)
+        self.addr[id(events)] = a
+        out = [Atom('E')]
+        for ev in events:
+            kind, data = ev[0], ev[1]
+            if kind is SUB:
+                dirs, sub = data
+                da = len(self.cells)
+                self.cells.append(None)
+                self.addr[id(dirs)] = da
+                self.cells[da] = [Atom('D')] + [wire_dir(d, self.num(d)) for d in dirs]
+                ba = self.add_evs(sub)
+                out.append([Atom('S'), [Atom('t'), da], [Atom('t'), ba]])
+            elif kind is EXPR:
+                e = wire_expr(data.ast)
+                out.append([Atom('X'), e] if e else Atom('U'))
+            elif kind is EXEC or kind is INCLUDE:
+                out.append(Atom('U'))
+            elif kind is START:
+                if all(isinstance(v, str) for _, v in data[1]):
+                    out.append([Atom('O'), evwire.ev(ev)])
+                else:
+                    out.append(Atom('U'))
+            else:
+                out.append([Atom('O'), evwire.ev(ev)])
+        self.cells[a] = out
+        return a
+
+
+def image_of(tmpl, dirnum=None):
+    im = Image(dirnum)
+    im.add_evs(tmpl._stream)
+    return im
+
+
+def wire_ctx(ctxt):
+    frames = [[[str(k), wire_val(f[k], str(k))] for k in f] for f in ctxt.frames]
+    choice = [[proto.B(bool(c[0])), proto.B(bool(c[1])), wire_val(c[2])] for c in reversed(ctxt._choice_stack)]
+    return [frames, choice]
+
+
+def changed_cells(a, b):
+    n = max(len(a), len(b))
+    return [i for i in range(n) if (a[i] if i < len(a) else None) != (b[i] if i < len(b) else None)]
+
+
+def wire_actions(case):
+    out = []
+    for act in case['actions']:
+        k = act[0]
+        if k == 'o':
+            d = case['data'][act[1]]
+            out.append([Atom('o'), [[key, wire_val(v)] for key, v in d.items()]])
+        elif k == 's':
+            out.append([Atom('n'), act[1]])
+        else:
+            out.append(Atom(k))
+    return out
+
+
+def model_request(case, variant):
+    """the request line for gdrv; the heap image comes from a twin object prepared by itself"""
+    twin = build(case['tmpl'], mark='')
+    twin.tmpl.stream
+    im = image_of(twin.tmpl)
+    return proto.line(Atom('C10'), Atom('run'), proto.B(variant[0]), proto.B(variant[1]),
+                      proto.B(bool(case['tmpl'].get('translator'))), FUEL, im.cells, wire_actions(case))
+
+
+def real_run(case):
+    """perform the actions on the real object; observations in the model's output vocabulary"""
+    from harness import evwire
+    from genshi.template.base import Context
+    from genshi.filters.i18n import Translator
+    b = build(case['tmpl'], mark='')
+    dirnum = {}
+    keep = []
+
+    def cells_now():
+        if not b.tmpl._prepared:
+            return [], None
+        im = image_of(b.tmpl, dirnum)
+        keep.append(im)
+        return im.cells, im
+    flags = lambda: [proto.B(_stream_prepared(b.tmpl)), proto.B(b.tmpl._prepared)]
+    ctxs, its, term = [], [], []
+    out = []
+    for act in case['actions']:
+        before, _ = cells_now()
+        k = act[0]
+        if k == 'a':
+            try:
+                b.tmpl.stream
+                after, _ = cells_now()
+                out.append([Atom('unit'), changed_cells(before, after), flags()])
+            except Exception as e:  # noqa
+                out.append([Atom('raised'), Atom(type(e).__name__)])
+        elif k == 'o':
+            c = Context(**G.build_data(case['data'][act[1]]))
+            try:
+                it = iter(b.tmpl.generate(c))
+                ctxs.append(c)
+                its.append(it)
+                term.append(None)
+                after, _ = cells_now()
+                out.append([Atom('opened'), len(its) - 1, changed_cells(before, after), flags()])
+            except Exception as e:  # noqa
+                out.append([Atom('raised'), Atom(type(e).__name__)])
+        elif k == 's':
+            i = act[1]
+            if i >= len(its):
+                out.append([Atom('out'), i, Atom('halted'), proto.N, []])
+                continue
+            if term[i] is not None:
+                so = Atom('halted')
+            else:
+                try:
+                    with watchdog(3):
+                        ev = next(its[i])
+                    so = [Atom('ev'), evwire.ev(ev)]
+                except StopIteration:
+                    so = Atom('done')
+                    term[i] = 'done'
+                except Hang:
+                    so = [Atom('err'), Atom('fuel')]      # the model reports a step that never ends as out of fuel
+                    term[i] = 'err'
+                except Exception as e:  # noqa
+                    so = [Atom('err'), Atom(type(e).__name__)]
+                    term[i] = 'err'
+            after, _ = cells_now()
+            out.append([Atom('out'), i, so, wire_ctx(ctxs[i]), changed_cells(before, after)])
+        elif k == 'x':
+            tr = b.translator or Translator()
+            code = Translator.extract.__code__
+            calls = []
+            frames = []          # a generator frame is "called" at every resumption: count it once
+
+            def prof(frame, event, arg):
+                if event == 'call' and frame.f_code is code and not any(f is frame for f in frames):
+                    frames.append(frame)
+                    st = frame.f_locals.get('stream')
+                    if type(st) is list:
+                        calls.append(st)
+            err = Atom('ok')
+            try:
+                stream = b.tmpl.stream
+                sys.setprofile(prof)
+                try:
+                    for _ in tr.extract(stream):
+                        pass
+                finally:
+                    sys.setprofile(None)
+            except Exception as e:  # noqa
+                err = Atom(type(e).__name__)
+            after, im = cells_now()
+            trace = [im.addr.get(id(st), -1) for st in calls] if im else []
+            out.append([Atom('extracted'), trace, err, changed_cells(before, after), flags()])
+        elif k == 'p':
+            try:
+                pickle.dumps(b.tmpl, 2)
+            except Exception:  # noqa
+                pass
+            after, _ = cells_now()
+            out.append([Atom('unit'), changed_cells(before, after), flags()])
+        elif k == 'r':
+            registry = {'x': b.tmpl}   # noqa: what a loader cache does with the object
+            after, _ = cells_now()
+            out.append([Atom('unit'), changed_cells(before, after), flags()])
+        else:
+            raise ValueError(act)
+    return out
+
+
+def _stream_prepared(t):
+    """does `_stream` hold prepared events (directive objects) rather than the parsed ones (tuples)"""
+    from genshi.template.base import SUB
+
+    def walk(evs):
+        for ev in evs:
+            if ev[0] is SUB:
+                for d in ev[1][0]:
+                    return not isinstance(d, tuple)
+                r = walk(ev[1][1])
+                if r is not None:
+                    return r
+        return None
+    r = walk(t._stream)
+    return t._prepared if r is None else r
+
+
+def _is_unmodelled(x):
+    if isinstance(x, list):
+        return any(_is_unmodelled(y) for y in x)
+    return isinstance(x, Atom) and x in ('unmodelled', 'fuel')
+
+
+def compare_model(cases, res, variant, stream='steps'):
+    """run the cases through gdrv and through the real code, compare observation by observation (up to
+    the first observation the model does not cover, which ends the comparison of that case)"""
+    lines = [model_request(c, variant) for c in cases]
+    answers = proto.run_lines(lines)
+    for c, ans in zip(cases, answers):
+        if ans in ('bad-op', 'bad-line'):
+            res.disagreements.append({'stream': stream, 'case': c, 'model': ans, 'real': 'request not understood'})
+            continue
+        model = proto.dec(ans)
+        if model == []:
+            model = []
+        real = proto.dec(proto.enc(real_run(c)))      # same vocabulary as the decoded answer
+        if len(model) != len(real):
+            res.disagreements.append({'stream': stream, 'case': c, 'model': '%d observations' % len(model),
+                                      'real': '%d observations' % len(real)})
+            continue
+        dead = set()
+        for n, (m, r) in enumerate(zip(model, real)):
+            act = c['actions'][n]
+            if act[0] == 's' and act[1] in dead:
+                continue
+            if _is_unmodelled(m):
+                res.count('model:unmodelled')
+                if act[0] == 's':
+                    dead.add(act[1])       # this render left the fragment; the others go on
+                    continue
+                break
+            res.streams[stream] = res.streams.get(stream, 0) + 1
+            if act[0] == 's' and isinstance(m, list) and len(m) > 2 and isinstance(m[2], list) and m[2] and m[2][0] == 'err':
+                # after an exception the context is whatever the unwinding left; compare the exception only
+                m, r = m[:3] + m[4:], r[:3] + r[4:]
+                res.count('model:err:' + str(m[2][1]))
+            elif act[0] == 's' and isinstance(m, list) and len(m) > 2 and m[2] == 'halted':
+                m, r = m[:3] + m[4:], r[:3] + r[4:]
+            if m != r:
+                res.disagreements.append({'stream': stream, 'case': c, 'model': 'action %d %s: %s' % (n, act, trunc(m, 700)),
+                                          'real': trunc(r, 700)})
+                break
+            if act[0] == 's':
+                res.count('model:step-ok')
+
+
+def gen_model_case(rng):
+    t = G.rand_template(rng, modelled=True)
+    tspec = {'src': t['src'], 'files': {}, 'translator': t['translator'], 'auto_reload': True}
+    k = rng.choice([1, 2, 2, 3])
+    datas = [G.rand_data(rng, True, fail_bias=0.15 if rng.random() < 0.3 else 0.0) for _ in range(k)]
+    acts = []
+    pre = rng.random()
+    if pre < 0.3:
+        acts.append([rng.choice(['a', 'x', 'p', 'r'])])
+    for i in range(k):
+        acts.append(['o', i])
+    for i in G.rand_schedule(rng, k, rng.choice([10, 25, 50, 90])):
+        acts.append(['s', i])
+        if rng.random() < 0.06:
+            acts.append([rng.choice(['x', 'a', 'p', 'r'])])
+    return {'kind': 'model', 'tmpl': tspec, 'data': datas, 'actions': acts}, t['features']
 
 
 # --------------------------------------------------------------------------
@@ -746,16 +1180,55 @@ def shard(arg):
     return res
 
 
+def model_shard(arg):
+    import random
+    seed, idx, n, variant = arg
+    rng = random.Random('%s/%s/C10/model' % (seed, idx))
+    res = Result()
+    cases = []
+    for j in range(n):
+        case, feats = gen_model_case(rng)
+        cases.append(case)
+        res.evaluations += 1
+        res.count('kind:model')
+        for ft in feats:
+            res.count('mfeature:' + ft)
+        res.nontrivial.add(json.dumps(['model', case['tmpl']['src'][:300], len(case['data'])])[:400])
+    compare_model(cases, res, variant)
+    # the same cases through the oracle: the schedule part as an interleaving, the operations as a sequence
+    for case in cases[: max(1, n // 3)]:
+        sched = [a[1] for a in case['actions'] if a[0] == 's']
+        ic = {'kind': 'interleave', 'tmpl': case['tmpl'], 'data': case['data'], 'schedule': sched}
+        fails, foot = oracle_interleave(ic, res)
+        check_footprints(ic, foot, res, 'interleave')
+        if fails:
+            res.failures.append(fails[0])
+    res.samples = cases[:1]
+    return res
+
+
+def code_variant():
+    """the variant the translator probed (same probes as harness/extract_heap.py)"""
+    from harness import extract_heap
+    return extract_heap._probe_variant()
+
+
 def run(ctx):
     nsh = 16
     per = ctx.n(60, 1500)
     res = Result()
     for r in pmap('harness.props.c10', 'shard', [(ctx.seed, i, per, ctx.tier) for i in range(nsh)]):
         res.merge(r)
+    variant = tuple(code_variant())
+    res.notes.append('code variant probed: callCopies=%s extractCopies=%s' % variant)
+    mper = ctx.n(25, 600)
+    for r in pmap('harness.props.c10', 'model_shard', [(ctx.seed, i, mper, variant) for i in range(nsh)]):
+        res.merge(r)
     res.rule = ('generated markup templates (py: directives in attribute and element form, macros, match templates, '
                 'includes through a loader, i18n directives) x API operation sequences / next() schedules over 2-3 open '
-                'renders / 2 threads under the line scheduler; non-trivial = at least two distinct constructs; '
-                'distinct by (kind, source, number of data sets)')
+                'renders / 2 threads under the line scheduler; model cases: templates of the modelled fragment x '
+                'schedules of open / next / extract / stream / pickle / register compared step by step with gdrv; '
+                'non-trivial = at least two distinct constructs; distinct by (kind, source, number of data sets)')
     res.samples = res.samples[:6]
     return res
 
